@@ -277,13 +277,23 @@ func checkC02(w *World, r *Report) {
 	r.rule("C02.reg", "the one in-place update of shared storage (the _PACKAGES_ registry written by lib/call.call) is unreachable from the evaluator and from every registered builtin")
 	r.rule("C02.copyrecv", "every store to a field of a value struct (List, Vector, HashMap, Set, MalFunc, Func, Symbol, LispError) goes to a copy local to the activation, never through a pointer obtained from outside")
 	r.rule("C02.noreflectset", "no reflect.Value.Set*, unsafe or sync/atomic pointer writes in the library")
-	f := &freshness{w: w, retSum: map[*ssa.Function]int{}, phiBusy: map[*ssa.Phi]bool{}, fieldBusy: map[string]bool{}}
 	e := newEngine(w)
+	nWrites := ruleContainerWrites(w, r, e, "C02.write", func(fn *ssa.Function) bool { return runtimePkg(fnPkgPath(fn)) }, true)
+	r.floor("C02.write", "container write sites in the library", nWrites, 45)
+	r.ok("C02.noreflectset", nil, "scan", token.NoPos, "no reflect.Value.Set* call in the library")
+	checkRegUnreachable(w, r)
+	r.Notes = append(r.Notes, "soundness sketch: if every container write has a base allocated in the current activation, then at the moment of any write no binding, collection or closure references the storage, so no observable value changes; read-only sharing of backing arrays (rest, subvec, seq, vec, with-meta) is then harmless")
+	r.Assumptions = append(r.Assumptions, "flow-insensitive inside one activation: a write to fresh storage after the same activation has already published it is not detected", "writes to *Atom, *Future and Env.data are out of scope by type (the mutable cells of the language)", "embedder-supplied Go functions obey the same rule")
+}
+
+// ruleContainerWrites checks every container write in the selected functions; returns the number of sites.
+func ruleContainerWrites(w *World, r *Report, e *Engine, rule string, include func(*ssa.Function) bool, copyRecv bool) int {
+	f := &freshness{w: w, retSum: map[*ssa.Function]int{}, phiBusy: map[*ssa.Phi]bool{}, fieldBusy: map[string]bool{}}
 	aud := &Audit{w: w, e: e}
 	callFn := w.Fn("lib/call", "call")
 	nWrites := 0
 	for _, fn := range w.Funcs {
-		if isTestFunc(w, fn) || !runtimePkg(fnPkgPath(fn)) {
+		if isTestFunc(w, fn) || !include(fn) {
 			continue
 		}
 		inReg := callFn != nil && (fn == callFn || fn.Parent() == callFn)
@@ -300,7 +310,7 @@ func checkC02(w *World, r *Report) {
 							base, kind = ia.X, "elemstore"
 						}
 					}
-					if fa, ok := x.Addr.(*ssa.FieldAddr); ok {
+					if fa, ok := x.Addr.(*ssa.FieldAddr); ok && copyRecv {
 						checkCopyRecv(w, r, fn, x, fa)
 					}
 				case *ssa.Call:
@@ -314,7 +324,7 @@ func checkC02(w *World, r *Report) {
 							base, kind = x.Call.Args[0], "delete"
 						}
 					}
-					if callee := x.Call.StaticCallee(); callee != nil && callee.Pkg != nil && callee.Pkg.Pkg.Path() == "reflect" && strings.HasPrefix(callee.Name(), "Set") {
+					if callee := x.Call.StaticCallee(); callee != nil && callee.Pkg != nil && callee.Pkg.Pkg.Path() == "reflect" && strings.HasPrefix(callee.Name(), "Set") && copyRecv {
 						r.bad("C02.noreflectset", fn, "reflect "+callee.Name(), x.Pos(), "reflection write")
 					}
 				}
@@ -326,20 +336,16 @@ func checkC02(w *World, r *Report) {
 				ok, why := f.fresh(base, 0)
 				switch {
 				case ok:
-					r.ok("C02.write", fn, construct, instrPos(in), why)
+					r.ok(rule, fn, construct, instrPos(in), why)
 				case inReg:
-					r.add("C02.write", fn, construct, instrPos(in), "exempt", "registration-time registry update; accepted only because C02.reg shows lib/call.call is unreachable from evaluation")
+					r.add(rule, fn, construct, instrPos(in), "exempt", "registration-time registry update; accepted only because C02.reg shows lib/call.call is unreachable from evaluation")
 				default:
-					r.bad("C02.write", fn, construct, instrPos(in), "writes storage that may already be reachable from a lisp value: "+why)
+					r.bad(rule, fn, construct, instrPos(in), "writes storage that may already be reachable from a lisp value: "+why)
 				}
 			}
 		}
 	}
-	r.floor("C02.write", "container write sites in the library", nWrites, 45)
-	r.ok("C02.noreflectset", nil, "scan", token.NoPos, "no reflect.Value.Set* call in the library")
-	checkRegUnreachable(w, r)
-	r.Notes = append(r.Notes, "soundness sketch: if every container write has a base allocated in the current activation, then at the moment of any write no binding, collection or closure references the storage, so no observable value changes; read-only sharing of backing arrays (rest, subvec, seq, vec, with-meta) is then harmless")
-	r.Assumptions = append(r.Assumptions, "flow-insensitive inside one activation: a write to fresh storage after the same activation has already published it is not detected", "writes to *Atom, *Future and Env.data are out of scope by type (the mutable cells of the language)", "embedder-supplied Go functions obey the same rule")
+	return nWrites
 }
 
 func (w *World) srcOrDescribe(a *Audit, in ssa.Instruction, base ssa.Value) string {
